@@ -15,6 +15,20 @@ NOT_SHOWN = {
         "NOT shown: the ray-casting inside test itself is a parameter here (its own properties are C16 / C02 trimesh_ray_test_*); in_out='inside' / 'outside' "
         "(keyword handling is C02 inout_*); float rounding. Also proved: the marshalling preserves linearity for any F, and the Dipole, Sphere (C12), segment, "
         "Circle, Cuboid, Triangle, Tetrahedron kernels are linear",
+        "WRAPPER level (c05wrap, Lemmas/WrapLinear.lean, any value of mu_0, all four fields, arbitrary real a, b and arbitrary excitations): f(a p + b q) = a f(p) + b f(q) IS proved for "
+        "every modelled BHJM wrapper through every mask row -- Cuboid (`cuboid_wrapper_linear`: inside / outside / face / edge / zero side and the `pol == 0` rows; the mask is shown "
+        "redundant, `cuboid_pol_mask_is_redundant`, because the closed form vanishes at p = 0, `cuboid_kernel_vanishes_at_zero_polarization`), Sphere, Dipole (r != 0), the Polyline "
+        "segment row with its start == end and on-the-line masks and a whole Polyline instance, Circle (zero diameter / on the wire / on the axis / general; equation between optional "
+        "results, definedness independent of the current), Triangle / Tetrahedron / TriangularMesh row (no excitation masks), CylinderSegment (`cylseg_linear_in_magnetization`, NaN rows "
+        "included) and the function the class calls (`cylseg_internal_wrapper_linear`, 360-degree branch = difference of two Cylinders), Cylinder (`cylinder_wrapper_linear`: if the code "
+        "returns for p and q it RETURNS for a p + b q with the combined value, whatever mask rows -- zero / axial-only / transversal-only / mixed, on the edge -- the three polarizations "
+        "fall into; `cylinder_wrapper_linear_total`: unconditional for 0 < d, 0 <= h with the fuel of C15). No wrapper thresholds the size of the excitation (all excitation masks are exact "
+        "== 0 tests), so none of these needs a witness. The ONE row that is not linear: the Dipole at its own position (`r == 0` mask: +-inf per non-zero moment component, 0 "
+        "otherwise; Model/DipoleSing.lean, driver `kern dipole0`): witness `dipole_at_position_not_additive` (H(1,0,0) = (+inf,0,0), H(-1,0,0) = (-inf,0,0), H of the sum = 0), what holds "
+        "there `dipole_at_position_homogeneous_partial` (positive factors, oddness). NOT shown: float rounding (measured on the real code by the stream kind `exccancel`: linearity residual <= 2e-14 of the field scale in 4800 rows of two seeds); the statement "
+        "for the Cylinder as an equation between optional results is false for a finite fuel (the sum of two polarizations may skip a kernel whose cel0 ran out of fuel) -- an artefact of "
+        "the fuel, not of the code. Tie: stream kind `exccancel` (corr/exccancel_rows.py): per wrapper kind one real call on six rows p, -p, signed zeros, q, a p + b q, +0 (zero patterns: "
+        "none / one / two / all components; q cancelling the transversal or axial part of p), each row against the port",
         "sumup and pixel_agg (c03post): the code sums over the source axis AFTER rotation / flip AND after pixel_agg. Proved for any reduction: "
         "`sumup_after_eq_sum_before` (flat element j of sumup=True = sum over entries of element l*N + j of sumup=False), `sumup_commutes_with_sensor_frame` "
         "(no pixel_agg: = reading of ONE compound source of all entries), `sumup_of_pixel_agg_is_sum_of_aggregates` (what the code returns with a pixel_agg: "
@@ -26,7 +40,8 @@ NOT_SHOWN = {
         "arctan2-conversion proved a right inverse of spherical->Cartesian for every vector); ellipkinc / ellipeinc / el3_angle are opaque functions (they never see the magnetization "
         "angles: `cylseg_special_functions_magnetization_free`); the batch path of el3 (n >= 10 rows) and float rounding are not modelled",
         "Cylinder (ported BHJM_magnet_cylinder, single-row path, cel0 opaque): full linearity in the polarization IS proved (`cylinder_linear_in_polarization`, whenever "
-        "the three evaluations return; plus proportionality and transversal + axial split as equalities of optional results); not modelled: the vectorised celv path (n >= 10 rows)"],
+        "the three evaluations return; `cylinder_wrapper_linear`: the third returns whenever the first two do; plus proportionality and transversal + axial split as equalities of "
+        "optional results); not modelled: the vectorised celv path (n >= 10 rows)"],
  "06": ["batch-level control flow inside kernels (rowwise_c: trimesh grouping, segment early return, cel n<10) — kernel model pending",
         "np.squeeze / np.expand_dims / reshape semantics are assumed as modelled (shape list + unchanged row-major data), exercised by the stream"],
 }["05"]
@@ -42,6 +57,12 @@ def run(ctx, model_ok):
         st.pop("samples")
         ctx.cov["correspondence_kern"] = st
         ctx.cov["traces_validated_against_impl"] = ctx.cov.get("traces_validated_against_impl", 0) + st["rows"]
+        # the wrapper-level linearity theorems (c05wrap) run through the excitation masks: for every wrapper kind batches of six rows
+        # p, -p, signed zeros, q, a p + b q, +0 with zero patterns in p and q, each row against the port (corr/exccancel_rows.py)
+        st = kern_family.run_stream(ctx, ctx.scale(66, 3300), only=["exccancel"])
+        st.pop("samples")
+        ctx.cov["correspondence_exccancel"] = {"rows": st["rows"], "disagreements": st["disagreements"], **st["exccancel"]}
+        ctx.cov["traces_validated_against_impl"] += st["rows"]
     # the CylinderSegment theorems are about Model/CylSeg*.lean: is the frozen translation still what the source says, and does the port agree with the real code?
     from checks import _cylseg
     _cylseg.run(ctx, ctx.scale(300, 10000))
